@@ -78,4 +78,454 @@ theorem mem_presentTimes {T : Type} (evs : List (Output T)) (t : Int) :
     | .ok none => simp [presentTimes, ih]
     | .error _ => simp [presentTimes, ih]
 
+
+/-! ## tier S: moving average -/
+section S
+variable {F : Type} [Add F] [Sub F] [Mul F] [Div F] [Neg F] [LT F] [LE F] [BEq F]
+  [DecidableLT F] [DecidableLE F] [FloatLike F] {T : Type}
+
+/-- sorted by non-decreasing time -/
+def Sorted (q : List (Datum T)) : Prop := q.Pairwise (fun a b => a.time ≤ b.time)
+
+/-- what the queue looks like right after the present sample `o` has been processed -/
+def WinQueue (window : Int) (o : Datum T) (q : List (Datum T)) : Prop :=
+  q ≠ [] ∧ Sorted q ∧ (∀ d ∈ q, o.time - window < d.time ∧ d.time ≤ o.time) ∧ ∃ q', q = q' ++ [o]
+
+/-- the pairs `(value_i, weight_i in f32 seconds)` the accumulation loop runs over -/
+def maTerms (cut : Int) (q : List (Datum T)) : List (T × F) :=
+  (q.map (·.value)).zip ((Ma.weightsNs cut q).map (fun n => (secs n : F)))
+
+/-- the window as a non-incremental function: push, then drop the front while it is not newer than the cut -/
+def maWindow (window : Int) (queue : List (Datum T)) (o : Datum T) : List (Datum T) :=
+  (queue ++ [o]).dropWhile (fun d => decide (d.time ≤ o.time - window))
+
+/-- `trim` is `dropWhile`, panicking when nothing is left -/
+theorem trim_eq_dropWhile (cut : Int) (l : List (Datum T)) :
+    Ma.trim cut l = match l.dropWhile (fun d => decide (d.time ≤ cut)) with
+      | [] => .error .oob
+      | d :: ds => .ok (d :: ds) := by
+  induction l with
+  | nil => rfl
+  | cons d ds ih =>
+    simp only [Ma.trim, List.dropWhile_cons]
+    by_cases h : d.time ≤ cut
+    · simp [h, ih]
+    · simp [h]
+
+theorem trim_ok_eq_dropWhile (cut : Int) (l q : List (Datum T)) (h : Ma.trim cut l = .ok q) :
+    q = l.dropWhile (fun d => decide (d.time ≤ cut)) := by
+  rw [trim_eq_dropWhile] at h
+  split at h
+  · cases h
+  · rename_i d ds hdd
+    injection h with h
+    rw [hdd, h]
+
+/-- the just-pushed sample is never trimmed: the result is a suffix of the old queue followed by `o`,
+everything dropped is not newer than the cut, the new front is newer than the cut -/
+theorem trim_snoc (cut : Int) (l : List (Datum T)) (o : Datum T) (h : cut < o.time) :
+    ∃ pre q', l = pre ++ q' ∧ Ma.trim cut (l ++ [o]) = .ok (q' ++ [o]) ∧
+      (∀ d ∈ pre, d.time ≤ cut) ∧ (∀ d, (q' ++ [o]).head? = some d → cut < d.time) := by
+  induction l with
+  | nil =>
+    refine ⟨[], [], rfl, ?_, by simp, ?_⟩
+    · simp [Ma.trim, Int.not_le.2 h]
+    · intro d hd
+      simp at hd
+      subst hd
+      exact h
+  | cons d ds ih =>
+    by_cases hd : d.time ≤ cut
+    · obtain ⟨pre, q', e, ht, hp, hh⟩ := ih
+      refine ⟨d :: pre, q', by simp [e], ?_, ?_, hh⟩
+      · simp only [List.cons_append, Ma.trim, hd, if_true]
+        exact ht
+      · intro x hx
+        rcases List.mem_cons.1 hx with hx | hx
+        · subst hx; exact hd
+        · exact hp x hx
+    · refine ⟨[], d :: ds, rfl, by simp [Ma.trim, hd], by simp, ?_⟩
+      intro x hx
+      simp at hx
+      subst hx
+      omega
+
+/-- unfolding of one update on a present sample, given the trimmed queue and the accumulated sum -/
+theorem ma_step_present_eq (scale : T → F → T) (add : T → T → Except Panic T) (fin : T → F → T)
+    (zero : Option T) (window : Int) (s : MaS T) (o : Datum T) (q : List (Datum T)) (v : T)
+    (ht : Ma.trim (o.time - window) (s.queue ++ [o]) = .ok q)
+    (hacc : Ma.accumulate scale add zero (maTerms (o.time - window) q) = .ok (some v)) :
+    Ma.step scale add fin zero window s (.ok (some o)) =
+      .ok (⟨.ok (some ⟨o.time, fin v (secs window)⟩), q⟩, .ok ()) := by
+  simp only [maTerms] at hacc
+  simp only [Ma.step, ht, hacc]
+
+/-- accumulation never fails when `add` is total on a class `Pacc` closed under `add` that contains all terms -/
+theorem accumulate_some (scale : T → F → T) (add : T → T → Except Panic T) (Pacc : T → Prop)
+    (ha : ∀ a b, Pacc a → Pacc b → ∃ c, add a b = .ok c ∧ Pacc c) :
+    ∀ (l : List (T × F)) (a : T), Pacc a → (∀ p ∈ l, Pacc (scale p.1 p.2)) →
+      ∃ v, Ma.accumulate scale add (some a) l = .ok (some v) ∧ Pacc v := by
+  intro l
+  induction l with
+  | nil => intro a pa _; exact ⟨a, rfl, pa⟩
+  | cons p rest ih =>
+    intro a pa hl
+    obtain ⟨v, w⟩ := p
+    obtain ⟨c, hc, pc⟩ := ha a (scale v w) pa (hl (v, w) (List.mem_cons_self ..))
+    simp only [Ma.accumulate, hc]
+    exact ih c pc (fun p hp => hl p (List.mem_cons_of_mem _ hp))
+
+theorem accumulate_some' (scale : T → F → T) (add : T → T → Except Panic T) (Pacc : T → Prop)
+    (ha : ∀ a b, Pacc a → Pacc b → ∃ c, add a b = .ok c ∧ Pacc c)
+    (zero : Option T) (hz : ∀ z, zero = some z → Pacc z) (l : List (T × F)) (hne : l ≠ [])
+    (hl : ∀ p ∈ l, Pacc (scale p.1 p.2)) :
+    ∃ v, Ma.accumulate scale add zero l = .ok (some v) ∧ Pacc v := by
+  cases zero with
+  | some z => exact accumulate_some scale add Pacc ha l z (hz z rfl) hl
+  | none =>
+    cases l with
+    | nil => exact absurd rfl hne
+    | cons p rest =>
+      obtain ⟨v, w⟩ := p
+      simp only [Ma.accumulate]
+      exact accumulate_some scale add Pacc ha rest (scale v w) (hl (v, w) (List.mem_cons_self ..))
+        (fun p hp => hl p (List.mem_cons_of_mem _ hp))
+
+theorem weightsNs_length (cut : Int) (q : List (Datum T)) : (Ma.weightsNs cut q).length = q.length := by
+  induction q generalizing cut with
+  | nil => rfl
+  | cons d ds ih => simp [Ma.weightsNs, ih]
+
+theorem maTerms_ne_nil (cut : Int) (q : List (Datum T)) (h : q ≠ []) : (maTerms (F := F) cut q) ≠ [] := by
+  cases q with
+  | nil => exact absurd rfl h
+  | cons d ds => simp [maTerms, Ma.weightsNs]
+
+theorem mem_maTerms (cut : Int) (q : List (Datum T)) (p : T × F) (h : p ∈ maTerms (F := F) cut q) :
+    ∃ d ∈ q, p.1 = d.value := by
+  have h1 := (List.of_mem_zip h).1
+  obtain ⟨d, hd, e⟩ := List.mem_map.1 h1
+  exact ⟨d, hd, e.symm⟩
+
+/-! ### A1: no update panics -/
+
+/-- One update on a present sample never panics, for ANY previous queue (sorted or not) and any
+`window > 0`: the `.oob` branches are unreachable.  `Pin` is a class containing the sample values, `Pacc`
+a class containing the scaled terms on which `add` is total (for f32: everything). -/
+theorem ma_step_present_ok (scale : T → F → T) (add : T → T → Except Panic T) (fin : T → F → T)
+    (zero : Option T) (window : Int) (hw : 0 < window) (Pin Pacc : T → Prop)
+    (hs : ∀ v w, Pin v → Pacc (scale v w))
+    (ha : ∀ a b, Pacc a → Pacc b → ∃ c, add a b = .ok c ∧ Pacc c)
+    (hz : ∀ z, zero = some z → Pacc z)
+    (s : MaS T) (o : Datum T) (hq : ∀ d ∈ s.queue, Pin d.value) (ho : Pin o.value) :
+    ∃ pre q' v, s.queue = pre ++ q' ∧
+      Ma.accumulate scale add zero (maTerms (o.time - window) (q' ++ [o])) = .ok (some v) ∧
+      Ma.step scale add fin zero window s (.ok (some o)) =
+        .ok (⟨.ok (some ⟨o.time, fin v (secs window)⟩), q' ++ [o]⟩, .ok ()) ∧
+      (∀ d ∈ pre, d.time ≤ o.time - window) ∧
+      (∀ d, (q' ++ [o]).head? = some d → o.time - window < d.time) ∧
+      q' ++ [o] = maWindow window s.queue o := by
+  obtain ⟨pre, q', e, ht, hp, hh⟩ := trim_snoc (o.time - window) s.queue o (by omega)
+  have hwin : q' ++ [o] = maWindow window s.queue o := trim_ok_eq_dropWhile _ _ _ ht
+  have hne : q' ++ [o] ≠ [] := by simp
+  have hall : ∀ d ∈ q' ++ [o], Pin d.value := by
+    intro d hd
+    rcases List.mem_append.1 hd with hd | hd
+    · exact hq d (by rw [e]; exact List.mem_append_right _ hd)
+    · simp at hd; subst hd; exact ho
+  obtain ⟨v, hv, _⟩ := accumulate_some' scale add Pacc ha zero hz
+    (maTerms (o.time - window) (q' ++ [o])) (maTerms_ne_nil _ _ hne)
+    (by
+      intro p hp
+      obtain ⟨d, hd, e'⟩ := mem_maTerms _ _ p hp
+      rw [e']
+      exact hs _ _ (hall d hd))
+  exact ⟨pre, q', v, e, hv, ma_step_present_eq scale add fin zero window s o _ v ht hv, hp, hh, hwin⟩
+
+/-- error and absent events never panic, and keep the queue a sub-queue of the old one -/
+theorem ma_step_other_ok (scale : T → F → T) (add : T → T → Except Panic T) (fin : T → F → T)
+    (zero : Option T) (window : Int) (s : MaS T) (inp : Output T) (h : ∀ d, inp ≠ .ok (some d)) :
+    ∃ s' r, Ma.step scale add fin zero window s inp = .ok (s', r) ∧ (s'.queue = s.queue ∨ s'.queue = []) := by
+  match inp, h with
+  | .error e, _ => exact ⟨_, _, rfl, Or.inr rfl⟩
+  | .ok (some d), h => exact absurd rfl (h d)
+  | .ok none, _ =>
+    simp only [Ma.step]
+    cases s.value with
+    | error e => exact ⟨_, _, rfl, Or.inl rfl⟩
+    | ok v => exact ⟨_, _, rfl, Or.inl rfl⟩
+
+/-- **No moving-average update panics**, for every history of events of any length (timestamps need not
+even be monotone), every `window > 0`, whenever `add` cannot fail on the terms (`Pin`/`Pacc` as above). -/
+theorem ma_no_panic_closed (scale : T → F → T) (add : T → T → Except Panic T) (fin : T → F → T)
+    (zero : Option T) (window : Int) (hw : 0 < window) (Pin Pacc : T → Prop)
+    (hs : ∀ v w, Pin v → Pacc (scale v w))
+    (ha : ∀ a b, Pacc a → Pacc b → ∃ c, add a b = .ok c ∧ Pacc c)
+    (hz : ∀ z, zero = some z → Pacc z)
+    (evs : List (Output T)) (hin : ∀ d, Except.ok (some d) ∈ evs → Pin d.value)
+    (s : MaS T) (hq : ∀ d ∈ s.queue, Pin d.value) :
+    ∃ s', runE (Ma.step scale add fin zero window) s evs = .ok s' := by
+  induction evs generalizing s with
+  | nil => exact ⟨s, rfl⟩
+  | cons e es ih =>
+    have hin' : ∀ d, Except.ok (some d) ∈ es → Pin d.value := fun d hd => hin d (List.mem_cons_of_mem _ hd)
+    by_cases hp : ∃ d, e = .ok (some d)
+    · obtain ⟨o, rfl⟩ := hp
+      obtain ⟨pre, q', v, e1, _, hstep, _, _⟩ := ma_step_present_ok scale add fin zero window hw Pin Pacc hs ha hz
+        s o hq (hin o (List.mem_cons_self ..))
+      simp only [runE, hstep]
+      apply ih hin'
+      intro d hd
+      rcases List.mem_append.1 hd with hd | hd
+      · exact hq d (by rw [e1]; exact List.mem_append_right _ hd)
+      · simp at hd; subst hd; exact hin _ (List.mem_cons_self ..)
+    · obtain ⟨s', r, hstep, hq'⟩ := ma_step_other_ok scale add fin zero window s e
+        (fun d hd => hp ⟨d, hd⟩)
+      simp only [runE, hstep]
+      apply ih hin'
+      rcases hq' with hq' | hq'
+      · rw [hq']; exact hq
+      · rw [hq']; intro d hd; cases hd
+
+/-- A1, f32 shape: `add` never fails. -/
+theorem ma_no_panic (scale : T → F → T) (add : T → T → Except Panic T) (fin : T → F → T)
+    (zero : Option T) (window : Int) (hw : 0 < window) (hadd : ∀ a b, ∃ c, add a b = .ok c)
+    (evs : List (Output T)) :
+    ∃ s', runE (Ma.step scale add fin zero window) Ma.init evs = .ok s' :=
+  ma_no_panic_closed scale add fin zero window hw (fun _ => True) (fun _ => True) (fun _ _ _ => trivial)
+    (fun a b _ _ => by obtain ⟨c, hc⟩ := hadd a b; exact ⟨c, hc, trivial⟩) (fun _ _ => trivial)
+    evs (fun _ _ => trivial) Ma.init (fun _ _ => trivial)
+
+/-- A1 for the f32 instantiation used by the driver -/
+theorem ma_no_panic_f32 (window : Int) (hw : 0 < window) (evs : List (Output F)) :
+    ∃ s', runE (Ma.step scaleF addF divF (some (c0 : F)) window) Ma.init evs = .ok s' :=
+  ma_no_panic scaleF addF divF _ window hw (fun a b => ⟨a + b, rfl⟩) evs
+
+theorem qadd_same_unit (chk : Bool) (a b : Quantity F) (h : chk = true → a.unit = b.unit) :
+    Quantity.add chk a b = .ok ⟨a.value + b.value, a.unit⟩ := by
+  cases chk with
+  | false => rfl
+  | true =>
+    have h' := h rfl
+    simp [Quantity.add, DUnit.add, DUnit.assertEqAssumeOk, DUnit.eqAssumeTrue, DUnit.constEq, h']
+
+/-- A1 for the Quantity instantiation: all samples carry the same unit `u` (`chk` arbitrary; with
+`chk = false` the hypothesis is not even needed, the class is then trivial). -/
+theorem ma_no_panic_quantity (chk : Bool) (window : Int) (hw : 0 < window) (u : DUnit)
+    (evs : List (Output (Quantity F))) (hin : ∀ d, Except.ok (some d) ∈ evs → d.value.unit = u) :
+    ∃ s', runE (Ma.step (scaleQs chk) (Quantity.add chk) (divQs chk) none window) Ma.init evs = .ok s' := by
+  refine ma_no_panic_closed (scaleQs chk) (Quantity.add chk) (divQs chk) none window hw
+    (fun q => q.unit = u) (fun q => q.unit = DUnit.mul chk u (SECOND chk)) ?_ ?_ (fun _ h => by cases h)
+    evs hin Ma.init (fun _ h => by cases h)
+  · intro v w hv
+    simp only [scaleQs, Quantity.mul, hv]
+  · intro a b pa pb
+    refine ⟨_, qadd_same_unit chk a b (fun _ => pa.trans pb.symm), pa⟩
+
+/-! ### A2: the queue invariant -/
+
+theorem sorted_head_lt (cut : Int) (q : List (Datum T)) (hs : Sorted q)
+    (hh : ∀ d, q.head? = some d → cut < d.time) : ∀ d ∈ q, cut < d.time := by
+  cases q with
+  | nil => intro d hd; cases hd
+  | cons x xs =>
+    intro d hd
+    have hx : cut < x.time := hh x rfl
+    rcases List.mem_cons.1 hd with hd | hd
+    · subst hd; exact hx
+    · have := (List.pairwise_cons.1 hs).1 d hd
+      omega
+
+/-- one update on a present sample not older than anything in a sorted queue establishes `WinQueue` -/
+theorem ma_step_present_inv (scale : T → F → T) (add : T → T → Except Panic T) (fin : T → F → T)
+    (zero : Option T) (window : Int) (hw : 0 < window) (Pin Pacc : T → Prop)
+    (hs : ∀ v w, Pin v → Pacc (scale v w))
+    (ha : ∀ a b, Pacc a → Pacc b → ∃ c, add a b = .ok c ∧ Pacc c)
+    (hz : ∀ z, zero = some z → Pacc z)
+    (s : MaS T) (o : Datum T) (hq : ∀ d ∈ s.queue, Pin d.value) (ho : Pin o.value)
+    (hsort : Sorted s.queue) (hle : ∀ d ∈ s.queue, d.time ≤ o.time) :
+    ∃ q v, Ma.accumulate scale add zero (maTerms (o.time - window) q) = .ok (some v) ∧
+      Ma.step scale add fin zero window s (.ok (some o)) =
+        .ok (⟨.ok (some ⟨o.time, fin v (secs window)⟩), q⟩, .ok ()) ∧
+      WinQueue window o q ∧ q = maWindow window s.queue o ∧ (∀ d ∈ q, d ∈ s.queue ∨ d = o) := by
+  obtain ⟨pre, q', v, e, hacc, hstep, hpre, hhead, hwin⟩ :=
+    ma_step_present_ok scale add fin zero window hw Pin Pacc hs ha hz s o hq ho
+  have hsub : ∀ d ∈ q', d ∈ s.queue := fun d hd => by rw [e]; exact List.mem_append_right _ hd
+  have hsorted : Sorted (q' ++ [o]) := by
+    rw [e] at hsort
+    have h2 := (List.pairwise_append.1 hsort).2.1
+    refine List.pairwise_append.2 ⟨h2, List.pairwise_singleton _ _, ?_⟩
+    intro a ha' b hb
+    simp at hb
+    subst hb
+    exact hle a (hsub a ha')
+  have hgt := sorted_head_lt (o.time - window) (q' ++ [o]) hsorted hhead
+  have hmem : ∀ d ∈ q' ++ [o], d ∈ s.queue ∨ d = o := by
+    intro d hd
+    rcases List.mem_append.1 hd with hd | hd
+    · exact Or.inl (hsub d hd)
+    · simp at hd; exact Or.inr hd
+  refine ⟨q' ++ [o], v, hacc, hstep, ⟨by simp, hsorted, ?_, q', rfl⟩, hwin, hmem⟩
+  intro d hd
+  refine ⟨hgt d hd, ?_⟩
+  rcases hmem d hd with h | h
+  · exact hle d h
+  · subst h; exact Int.le_refl _
+
+/-- general inductive form: from any state whose queue is sorted and not newer than all coming samples (and
+not newer than `B`), a non-decreasing history bounded by `B` runs without panic into such a state -/
+theorem ma_run_inv (scale : T → F → T) (add : T → T → Except Panic T) (fin : T → F → T)
+    (zero : Option T) (window : Int) (hw : 0 < window) (Pin Pacc : T → Prop)
+    (hs : ∀ v w, Pin v → Pacc (scale v w))
+    (ha : ∀ a b, Pacc a → Pacc b → ∃ c, add a b = .ok c ∧ Pacc c)
+    (hz : ∀ z, zero = some z → Pacc z) (B : Int)
+    (evs : List (Output T)) (hin : ∀ d, Except.ok (some d) ∈ evs → Pin d.value) (hmono : NonDecr evs)
+    (hB : ∀ t ∈ presentTimes evs, t ≤ B)
+    (s : MaS T) (hq : ∀ d ∈ s.queue, Pin d.value) (hsort : Sorted s.queue)
+    (hfut : ∀ d ∈ s.queue, ∀ t ∈ presentTimes evs, d.time ≤ t) (hsB : ∀ d ∈ s.queue, d.time ≤ B) :
+    ∃ s', runE (Ma.step scale add fin zero window) s evs = .ok s' ∧ Sorted s'.queue ∧
+      (∀ d ∈ s'.queue, Pin d.value) ∧ (∀ d ∈ s'.queue, d.time ≤ B) := by
+  induction evs generalizing s with
+  | nil => exact ⟨s, rfl, hsort, hq, hsB⟩
+  | cons e es ih =>
+    have hin' : ∀ d, Except.ok (some d) ∈ es → Pin d.value := fun d hd => hin d (List.mem_cons_of_mem _ hd)
+    by_cases hp : ∃ d, e = .ok (some d)
+    · obtain ⟨o, rfl⟩ := hp
+      simp only [NonDecr, presentTimes, List.pairwise_cons] at hmono
+      simp only [presentTimes, List.mem_cons, forall_eq_or_imp] at hB hfut
+      obtain ⟨q, v, _, hstep, hwq, _, hmem⟩ := ma_step_present_inv scale add fin zero window hw Pin Pacc hs ha hz
+        s o hq (hin o (List.mem_cons_self ..)) hsort (fun d hd => (hfut d hd).1)
+      simp only [runE, hstep]
+      apply ih hin' hmono.2 hB.2
+      · intro d hd
+        rcases hmem d hd with h | h
+        · exact hq d h
+        · subst h; exact hin _ (List.mem_cons_self ..)
+      · exact hwq.2.1
+      · intro d hd t ht
+        rcases hmem d hd with h | h
+        · exact (hfut d h).2 t ht
+        · subst h; exact hmono.1 t ht
+      · intro d hd
+        rcases hmem d hd with h | h
+        · exact hsB d h
+        · subst h; exact hB.1
+    · obtain ⟨s', r, hstep, hq'⟩ := ma_step_other_ok scale add fin zero window s e
+        (fun d hd => hp ⟨d, hd⟩)
+      have hpt : presentTimes (e :: es) = presentTimes es := by
+        match e, hp with
+        | .error _, _ => rfl
+        | .ok none, _ => rfl
+        | .ok (some d), hp => exact absurd ⟨d, rfl⟩ hp
+      simp only [NonDecr, hpt] at hmono hB hfut
+      simp only [runE, hstep]
+      rcases hq' with hq' | hq'
+      · apply ih hin' hmono hB <;> rw [hq'] <;> assumption
+      · apply ih hin' hmono hB
+        · rw [hq']; intro d hd; cases hd
+        · rw [hq']; exact List.Pairwise.nil
+        · rw [hq']; intro d hd; cases hd
+        · rw [hq']; intro d hd; cases hd
+
+/-- **A2, for every history**: after any non-decreasing history followed by a present sample `o` the run has
+not panicked, the update returned `Ok(())`-state with value at time `o.time`, and the queue is non-empty,
+sorted, inside `(o.time − window, o.time]`, and ends with `o`. -/
+theorem ma_queue_invariant (scale : T → F → T) (add : T → T → Except Panic T) (fin : T → F → T)
+    (zero : Option T) (window : Int) (hw : 0 < window) (Pin Pacc : T → Prop)
+    (hs : ∀ v w, Pin v → Pacc (scale v w))
+    (ha : ∀ a b, Pacc a → Pacc b → ∃ c, add a b = .ok c ∧ Pacc c)
+    (hz : ∀ z, zero = some z → Pacc z)
+    (pre : List (Output T)) (o : Datum T)
+    (hin : ∀ d, Except.ok (some d) ∈ pre ++ [.ok (some o)] → Pin d.value)
+    (hmono : NonDecr (pre ++ [.ok (some o)])) :
+    ∃ s v, runE (Ma.step scale add fin zero window) Ma.init (pre ++ [.ok (some o)]) = .ok s ∧
+      s.value = .ok (some ⟨o.time, fin v (secs window)⟩) ∧
+      Ma.accumulate scale add zero (maTerms (o.time - window) s.queue) = .ok (some v) ∧
+      WinQueue window o s.queue := by
+  have hpt : presentTimes (pre ++ [Except.ok (some o)]) = presentTimes pre ++ [o.time] := by
+    rw [presentTimes_append]; rfl
+  simp only [NonDecr, hpt] at hmono
+  obtain ⟨hm1, _, hm3⟩ := List.pairwise_append.1 hmono
+  have hB : ∀ t ∈ presentTimes pre, t ≤ o.time := fun t ht => hm3 t ht o.time (by simp)
+  obtain ⟨s1, hrun, hsort, hq, hsB⟩ := ma_run_inv scale add fin zero window hw Pin Pacc hs ha hz o.time pre
+    (fun d hd => hin d (List.mem_append_left _ hd)) hm1 hB Ma.init
+    (fun _ h => by cases h) List.Pairwise.nil (fun _ h => by cases h) (fun _ h => by cases h)
+  obtain ⟨q, v, hacc, hstep, hwq, _, _⟩ := ma_step_present_inv scale add fin zero window hw Pin Pacc hs ha hz
+    s1 o hq (hin o (by simp)) hsort hsB
+  refine ⟨⟨.ok (some ⟨o.time, fin v (secs window)⟩), q⟩, v, ?_, rfl, hacc, hwq⟩
+  rw [runE_append, hrun]
+  simp only [runE, hstep]
+
+/-! ### A3, A4: the weights (nanoseconds, exact integer arithmetic) -/
+
+theorem weights_nonneg_aux (cut : Int) (q : List (Datum T)) (hs : Sorted q) (hc : ∀ d ∈ q, cut ≤ d.time) :
+    ∀ w ∈ Ma.weightsNs cut q, 0 ≤ w := by
+  induction q generalizing cut with
+  | nil => intro w hw; cases hw
+  | cons d ds ih =>
+    intro w hw
+    simp only [Ma.weightsNs, List.mem_cons] at hw
+    have hp := List.pairwise_cons.1 hs
+    rcases hw with hw | hw
+    · have := hc d (List.mem_cons_self ..); omega
+    · exact ih d.time hp.2 hp.1 w hw
+
+/-- the time-in-window each sample covers: `t_i − t_{i−1}` with `t_0 = cut`; the sum telescopes -/
+theorem weights_sum_snoc (cut : Int) (q' : List (Datum T)) (o : Datum T) :
+    (Ma.weightsNs cut (q' ++ [o])).sum = o.time - cut := by
+  induction q' generalizing cut with
+  | nil => simp [Ma.weightsNs]
+  | cons d ds ih =>
+    simp only [List.cons_append, Ma.weightsNs, List.sum_cons, ih]
+    omega
+
+/-- **A3**: all weights are non-negative, the first one is strictly positive -/
+theorem ma_weights_nonneg (window : Int) (o : Datum T) (q : List (Datum T)) (h : WinQueue window o q) :
+    (∀ w ∈ Ma.weightsNs (o.time - window) q, 0 ≤ w) ∧
+    (∃ w ws, Ma.weightsNs (o.time - window) q = w :: ws ∧ 0 < w) := by
+  obtain ⟨hne, hs, hr, _⟩ := h
+  refine ⟨weights_nonneg_aux _ q hs (fun d hd => Int.le_of_lt (hr d hd).1), ?_⟩
+  cases q with
+  | nil => exact absurd rfl hne
+  | cons d ds =>
+    refine ⟨_, _, rfl, ?_⟩
+    have := (hr d (List.mem_cons_self ..)).1
+    omega
+
+/-- **A4**: the weights sum to the window length EXACTLY -/
+theorem ma_weights_sum_window (window : Int) (o : Datum T) (q : List (Datum T)) (h : WinQueue window o q) :
+    (Ma.weightsNs (o.time - window) q).sum = window := by
+  obtain ⟨_, _, _, q', rfl⟩ := h
+  rw [weights_sum_snoc]
+  omega
+
+theorem le_sum_of_nonneg (l : List Int) (h : ∀ w ∈ l, 0 ≤ w) : 0 ≤ l.sum ∧ ∀ w ∈ l, w ≤ l.sum := by
+  induction l with
+  | nil => exact ⟨by simp, fun w hw => by cases hw⟩
+  | cons x xs ih =>
+    have hx := h x (List.mem_cons_self ..)
+    obtain ⟨h0, hle⟩ := ih (fun w hw => h w (List.mem_cons_of_mem _ hw))
+    refine ⟨by simp only [List.sum_cons]; omega, ?_⟩
+    intro w hw
+    simp only [List.sum_cons]
+    rcases List.mem_cons.1 hw with hw | hw
+    · omega
+    · have := hle w hw; omega
+
+/-- consequently every weight lies in `[0, window]`: the `i64` subtractions `end_times[i] - start_times[i]`
+cannot overflow; the only subtraction that can is `output.time - window` itself (see the report) -/
+theorem ma_weights_le_window (window : Int) (o : Datum T) (q : List (Datum T)) (h : WinQueue window o q) :
+    ∀ w ∈ Ma.weightsNs (o.time - window) q, 0 ≤ w ∧ w ≤ window := by
+  intro w hw
+  have h1 := (ma_weights_nonneg window o q h).1
+  have h2 := (le_sum_of_nonneg _ h1).2 w hw
+  rw [ma_weights_sum_window window o q h] at h2
+  exact ⟨h1 w hw, h2⟩
+
+/-- as many weights as samples -/
+theorem ma_weights_length (cut : Int) (q : List (Datum T)) : (Ma.weightsNs cut q).length = q.length :=
+  weightsNs_length cut q
+
+end S
+
 end Rrtk.Thm.C12
